@@ -185,6 +185,20 @@ def main():
                 if ci % 5 == 4:
                     c["padall"] = 1
                 jobs.append((name, 1000 + ci, c, canon, wasm_encode.encode(em, c)))
+        # the same module as a file of a particular size (a trailing custom section makes up the difference): block sizes of
+        # buffered readers and their neighbours
+        def pad_to(data, total):
+            for ll in (1, 2, 3):
+                size = total - len(data) - 1 - ll
+                if size >= 2 and len(wasm_encode.Enc().u(size, "x")) == ll:
+                    return data + bytes([0]) + bytes(wasm_encode.Enc().u(size, "x")) + bytes([1, 0x70]) + bytes(size - 2)
+            return None
+        dm_ = machine.enc_module(directed_module())
+        dcanon = wasm_encode.encode(dm_)
+        for total in (512, 1023, 1024, 1025, 4095, 4096, 4097, 8192, 12288, 65535, 65536, 65537):
+            alt = pad_to(dcanon, total)
+            if alt is not None and len(alt) == total:
+                jobs.append(("directed", 2000 + total, {"custom": [{"at": 99, "name": "p", "payload": "to %d bytes" % total}]}, dcanon, alt))
         # the binder's padded LEB fields are themselves checked against Leb128.tla (a sample)
         for n in (32, 64):
             e = wasm_encode.Enc({"padall": 1})
